@@ -1624,6 +1624,7 @@ impl<'a> Exec<'a> {
 	fn sanitise(&self, tx: &[(u8, TxOp)]) -> Vec<(u8, TxOp)> {
 		let mut out = Vec::new();
 		let mut touched: Vec<std::collections::HashSet<usize>> = self.col_kinds.iter().map(|_| Default::default()).collect();
+		let mut delta: Vec<std::collections::HashMap<usize, i64>> = self.col_kinds.iter().map(|_| Default::default()).collect();
 		for (c, op) in tx {
 			if (*c as usize) >= self.col_kinds.len() {
 				continue
@@ -1634,24 +1635,8 @@ impl<'a> Exec<'a> {
 					if *k >= self.col_cfgs[*c as usize].keys.len() {
 						continue
 					}
-					if kind.is_tree() && crate::treeops::applicable(self, *c, op, &touched[*c as usize]) {
-						touched[*c as usize].insert(*k);
-						// trees referenced by Existing children must not be dereferenced later in the same tx
-						if let TxOp::InsertTree(_, spec) = op {
-							fn refs(s: &TreeSpec, out: &mut std::collections::HashSet<usize>) {
-								for c in &s.children {
-									match c {
-										ChildSpec::New(n) => refs(n, out),
-										ChildSpec::Existing { root, .. } => {
-											out.insert(*root);
-										},
-									}
-								}
-							}
-							let mut r = Default::default();
-							refs(spec, &mut r);
-							touched[*c as usize].extend(r);
-						}
+					if kind.is_tree() && crate::treeops::applicable(self, *c, op, &touched[*c as usize], &delta[*c as usize]) {
+						crate::treeops::note_accepted(self, *c, op, &mut touched[*c as usize], &mut delta[*c as usize]);
 						out.push((*c, op.clone()));
 					}
 				},
@@ -1809,12 +1794,17 @@ impl<'a> Exec<'a> {
 			simdisk::with(|d| d.monitor = false);
 		}
 		let dbtx = if bg_err { let t = self.sanitise(tx); self.to_db_tx(&t) } else { self.to_db_tx(tx) };
-		let has_oversize = tx.iter().any(|(_, op)| matches!(op, TxOp::InsertTree(_, s) if s.children.len() > 255));
+		fn oversize(s: &TreeSpec) -> bool {
+			s.children.len() > 255 || s.children.iter().any(|c| matches!(c, ChildSpec::New(n) if oversize(n)))
+		}
+		let has_oversize = tx.iter().any(|(c, op)| {
+			self.col_kinds.get(*c as usize).map_or(false, |k| k.is_tree()) && matches!(op, TxOp::InsertTree(_, s) if oversize(s))
+		});
 		let r = self.db().commit_changes(dbtx);
 		match r {
 			Ok(()) => {
 				if has_oversize {
-					self.violation("C10", "unrepresentable-accepted", "InsertTree with a root fan-out above 255 was accepted instead of being rejected".into());
+					self.violation("C10", "unrepresentable-accepted", "InsertTree with a node fan-out above 255 was accepted instead of being rejected".into());
 				} else {
 					self.violation("C08", "invalid-commit-accepted", format!("a transaction with an invalid operation{} was accepted", if bg_err { " (database in background-error state)" } else { "" }));
 				}
@@ -1833,9 +1823,16 @@ impl<'a> Exec<'a> {
 		for c in 0..self.ncols {
 			if let (Some(b), Some(a)) = (before[c], after[c]) {
 				if a != b {
+					// an unrepresentable insertion with nothing before it that takes slots: the
+					// rejection itself must not consume storage (C10)
+					let (p, class) = if has_oversize && !assembly_side_effect && !bg_err {
+						("C10", "unrepresentable-left-entries")
+					} else {
+						("C08", "entries-changed")
+					};
 					self.violation(
-						"C08",
-						"entries-changed",
+						p,
+						class,
 						format!("col {c} [{}]: value entry count went from {b} to {a} across a rejected commit", self.col_kinds[c].name()),
 					);
 				}
